@@ -79,6 +79,26 @@ func VerifC01History(h *verifh.H) {
 		}
 		h.Assert(e != nil && vRenderEntity(e) == want, "unscoped lookup equals the merge of the latest non-deleted versions :: got="+vRenderEntity(e)+" want="+want)
 	}
+	// lookup scoped to several datasets, named in either order (with three datasets also around
+	// one that is left out): the merge of the latest non-deleted versions in exactly those datasets
+	for i := 0; i < len(hs.dsn); i++ {
+		for j := 0; j < len(hs.dsn); j++ {
+			if i == j {
+				continue
+			}
+			scope := []string{hs.dsn[i], hs.dsn[j]}
+			for _, id := range ids {
+				want, found, _ := g.mMergeRender(id, scope)
+				e, err := hub.Store.GetEntity(id, scope, true)
+				h.Assert(err == nil, "multi-dataset lookup succeeds")
+				if !found {
+					h.Assert(e == nil || (len(e.Properties) == 0 && len(e.References) == 0), "lookup scoped to several datasets without a live version there returns no content :: id="+id+" scope="+vJoin(scope))
+					continue
+				}
+				h.Assert(e != nil && vRenderEntity(e) == want, "lookup scoped to several datasets equals the merge of their latest non-deleted versions, in whatever order they are named :: scope="+vJoin(scope)+" got="+vRenderEntity(e)+" want="+want)
+			}
+		}
+	}
 	h.Observe("seq", g.seq)
 }
 
